@@ -28,6 +28,7 @@ import (
 	"sync"
 
 	"github.com/syndtr/goleveldb/leveldb"
+	"verifharness/lib/dbh"
 	"verifharness/lib/vlib"
 )
 
@@ -198,7 +199,7 @@ func main() {
 						kc = &o.kdb
 					}
 				}
-				c = genDBCase(r, small, mm)
+				c = genDBCase(r, small, mm, dbh.ClassJob(i)) // every fifth program: non-injective comparer (id 4)
 				label := fmt.Sprintf("db/%d", i)
 				var kb *kbytesOut
 				if small && len(o.kbytes) < (kBytes+W-1)/W {
